@@ -174,6 +174,41 @@ theorem C04_json_counts (m : Meta) (vs : List RawValue) :
     (powershellRecs m vs).length = (vs.filter (fun v => !v.value.isEmpty)).length := by
   simp [elvishRecs, nushellRecs, xonshRecs, ionRecs, powershellRecs]
 
+/-! ### zsh: three levels of framing -/
+
+/-- outer level: `zstyle \x01 message \x01 data \x01`; the snippet's `IFS=$'\001' read` recovers the three
+    fields whatever they contain, as long as none contains \x01 -/
+theorem C04_zsh_outer_framing (z m d : Str) (hz : Char.ofNat 1 ∉ z) (hm : Char.ofNat 1 ∉ m) (hd : Char.ofNat 1 ∉ d) :
+    Str.splitOnChar (Char.ofNat 1) (z ++ [Char.ofNat 1] ++ m ++ [Char.ofNat 1] ++ d ++ [Char.ofNat 1]) = [z, m, d, []] := by
+  have e : z ++ [Char.ofNat 1] ++ m ++ [Char.ofNat 1] ++ d ++ [Char.ofNat 1] =
+      z ++ Char.ofNat 1 :: (m ++ Char.ofNat 1 :: (d ++ Char.ofNat 1 :: [])) := by simp
+  rw [e, Str.splitOnChar_append _ _ _ hz, Str.splitOnChar_append _ _ _ hm, Str.splitOnChar_append _ _ _ hd]
+  rfl
+
+/-- middle level: one block `tag \x03 displays \x03 values` per tag -/
+theorem C04_zsh_block_framing (tag ds vs : Str) (h1 : Char.ofNat 3 ∉ tag) (h2 : Char.ofNat 3 ∉ ds) (h3 : Char.ofNat 3 ∉ vs) :
+    Str.splitOnChar (Char.ofNat 3) (Str.join [Char.ofNat 3] [tag, ds, vs]) = [tag, ds, vs] := by
+  have e : Str.join [Char.ofNat 3] [tag, ds, vs] = tag ++ Char.ofNat 3 :: (ds ++ Char.ofNat 3 :: vs) := by
+    simp [Str.join]
+  rw [e, Str.splitOnChar_append _ _ _ h1, Str.splitOnChar_append _ _ _ h2, Str.splitOnChar_no _ _ h3]
+
+/-- inner level: as many display lines as value lines, one per candidate, because the sanitizer
+    removes every line feed from both (`zsh_strips`) -/
+theorem C04_zsh_lines (texts : List Str) (hne : texts ≠ []) (hnl : ∀ t ∈ texts, '\n' ∉ t) :
+    Str.splitOnChar '\n' (Str.join nlS texts) = texts := by
+  have hj : Str.join nlS texts = Str.joinChar '\n' texts := Str.join_singleton '\n' texts
+  rw [hj]
+  exact Str.splitOnChar_joinChar '\n' texts hne hnl
+
+/-- the values of the model are free of line feeds: the hypothesis of `C04_zsh_lines` is met -/
+theorem C04_zsh_values_no_linebreak (v : Str) : '\n' ∉ san Gen.zsh_sanitizer v :=
+  san_free zsh_sanitizer_shape zsh_strips.1 v
+
+/-- the framing characters themselves are *not* removed (listed finding `zsh_framing_control_chars`):
+    a message containing \x01 yields five outer fields instead of four -/
+theorem C04_zsh_framing_counterexample :
+    (Str.splitOnChar (Char.ofNat 1) ("z".toList ++ [Char.ofNat 1] ++ san Gen.zsh_message_formatMessage_msg ['-', Char.ofNat 1] ++ [Char.ofNat 1] ++ "d".toList ++ [Char.ofNat 1])).length = 5 := by decide
+
 /-! ### counterexamples on the pinned code (listed findings) -/
 
 /-- bash-ble sanitises nothing: a tab in the value shifts the fields (finding `bashble_unsanitised`) -/
